@@ -3,6 +3,7 @@ import Sympler.SmartList
 import Sympler.Verlet
 import Sympler.KernelsDrv
 import Sympler.HitTimeDrv
+import Sympler.IntegLambda
 import Sympler.DataFormatDriver
 import Sympler.Bonds
 import Sympler.Validate
@@ -31,6 +32,7 @@ def dispatch (name : String) (lines : List String) : Option (List String) :=
   | "verlet" => some (Sympler.Verlet.driver lines)
   | "kernels" => some (Sympler.KernelsDrv.driver lines)
   | "hittime" => some (Sympler.HitTimeDrv.driver lines)
+  | "integlambda" => some (Sympler.IntegLambda.driver lines)
   | "dataformat" => some (Sympler.DataFormat.driver lines)
   | "bonds" => some (Sympler.Bonds.driver lines)
   | "validate" => some (Sympler.Validate.driver lines)
